@@ -31,6 +31,18 @@ def swt_visited_restored(obj, visited, old, result):
 def swt_visited_restored_exc(obj, visited, old, exc):
     return visited == old.visited
 
+@c.ensures(note="C04 / C16: None and the JSON scalars pass through unchanged (an omitted optional argument serialises to None; a path or header string is "
+                "sent as given) — discharges the assumption `serialize(None) is None` the emitted-code contracts of C04 rely on")
+def swt_scalars_unchanged(obj, visited, old, result):
+    return implies(obj is None or isinstance(obj, (str, int, bool)), result == obj)
+
+
+c = contract(f"{U}:DataclassSerializer.serialize", props=["C16"], abstract_unsupported=True)
+
+@c.ensures(note="the public entry point inherits the scalar law from the tracked worker (fresh, empty in-progress set)")
+def ser_scalars_unchanged(obj, result):
+    return implies(obj is None or isinstance(obj, (str, int, bool)), result == obj)
+
 
 c = contract(f"{U}:DataclassSerializer._ensure_all_dicts", props=["C16"], types={"visited": "intset"}, modifies=["visited"],
              abstract_unsupported=True, abstract_comprehensions=True, tracked_names=["visited", "_serialize_with_tracking", "_ensure_all_dicts"])
